@@ -115,6 +115,7 @@ struct Endpoint {
 };
 
 static bool g_ad_is_own_nonce = false; // incremental sessions: pass the session's own (public) nonce field as the associated data
+static int g_start_nonce_bad = 0;      // incremental start() that did not advance the public nonce field by one: family + 1, reported by the operation
 static bool g_mask_extract_bad = false; // set by ep_key_objects, reported (and cleared) by the operation that caused it
 
 template <class T> static ascon::aead *make_cpp(Endpoint &e)
@@ -300,9 +301,11 @@ static Bytes ep_encrypt(Endpoint &e, const Bytes &m, const Bytes &ad, Rng *chunk
             uint8_t *field = alg == A128 ? e.u.s128.nonce : alg == A128A ? e.u.s128a.nonce : e.u.s80.nonce;
             const uint8_t *adp = g_ad_is_own_nonce && ad.size() == 16 && memcmp(field, ad.data(), 16) == 0 ? field : ap;
             if (adp == field) run.probe("inc.ad_is_the_sessions_nonce_field");
+            u128 before = load128(field);
             if (alg == A128) ascon128_aead_start(&e.u.s128, adp, ad.size());
             else if (alg == A128A) ascon128a_aead_start(&e.u.s128a, adp, ad.size());
             else ascon80pq_aead_start(&e.u.s80, adp, ad.size());
+            if (load128(field) != (u128)(before + 1)) g_start_nonce_bad = e.fam + 1; // "starting each packet advances the stored nonce"
         }
         // a third of the chunked packets are processed in place (aead.h allows input == output for the block calls)
         bool inplace = chunker && !m.empty() && chunker->chance(1, 3);
@@ -387,9 +390,11 @@ static int ep_decrypt(Endpoint &e, const Bytes &x, const Bytes &ad, Bytes &m_out
         {
             uint8_t *field = alg == A128 ? e.u.s128.nonce : alg == A128A ? e.u.s128a.nonce : e.u.s80.nonce;
             const uint8_t *adp = g_ad_is_own_nonce && ad.size() == 16 && memcmp(field, ad.data(), 16) == 0 ? field : ap;
+            u128 before = load128(field);
             if (alg == A128) ascon128_aead_start(&e.u.s128, adp, ad.size());
             else if (alg == A128A) ascon128a_aead_start(&e.u.s128a, adp, ad.size());
             else ascon80pq_aead_start(&e.u.s80, adp, ad.size());
+            if (load128(field) != (u128)(before + 1)) g_start_nonce_bad = e.fam + 1;
         }
         bool inplace = chunker && cap != 0 && chunker->chance(1, 3);
         if (inplace) memcpy(m.p, xp, cap);
@@ -1017,6 +1022,7 @@ struct ChannelWorld : World {
         (void)salt;
         simrng_reset(simrng_cur(), plan.digest(), SIMRNG_RANDOM);
         g_mask_extract_bad = false;
+        g_start_nonce_bad = 0;
         int idx = 0;
         for (const Op &op : plan.ops) {
             run.cur_op = idx++;
@@ -1033,6 +1039,10 @@ struct ChannelWorld : World {
             else if (op.name == "hugead") do_hugead(c, op);
             else if (op.name == "close") do_close(c, (int)(op.u(0) % NSESS));
             // set by ep_key_objects when a re-randomised masked key no longer extracts to its key: reported for the operation that keyed it
+            if (g_start_nonce_bad) {
+                if (c.record) c.run->violation("C14", "inc_start_advances_nonce", fam_name(g_start_nonce_bad - 1) + ".start@" + op.name, "right after start() the public nonce field is not the value before the call plus one");
+                g_start_nonce_bad = 0;
+            }
             if (g_mask_extract_bad) { if (c.record) c.run->violation("C10", "mask_then_extract_returns_key", "masked_key@" + op.name, "a masked key (freshly made or re-randomised) does not extract to the key it was made from"); g_mask_extract_bad = false; }
         }
         for (int s = 0; s < NSESS; ++s) do_close(c, s);
